@@ -13,7 +13,9 @@
 (***************************************************************************)
 EXTENDS GBCore, Json, IOUtils, TLCExt
 
-CONSTANT Diag
+CONSTANTS Diag,
+          PosMaskAsSet   \* deviation (known finding): on chunked keys a positional mask is turned into a
+                         \* boolean one, i.e. repeats and order are lost
 
 Traces == JsonDeserialize(IOEnv.TRACE_FILE)
 
@@ -26,7 +28,11 @@ N == Len(T.keys)
 MaskOk == IF T.mask.k = "pos" THEN PosOk(N, T.mask.p)
           ELSE IF T.mask.k = "bool" THEN Len(T.mask.b) = N
           ELSE TRUE
-SelT == Sel0(N, T.mask)
+RECURSIVE AscOf(_, _)
+AscOf(S, x) == IF S = {} THEN <<>> ELSE LET m == CHOOSE y \in S : \A z \in S : y <= z IN <<m>> \o AscOf(S \ {m}, x)
+SelT == IF PosMaskAsSet /\ T.mask.k = "pos" /\ PosOk(N, T.mask.p)
+        THEN LET s == PosIdx0(N, T.mask.p) IN AscOf({s[j] : j \in 1..Len(s)}, 0)
+        ELSE Sel0(N, T.mask)
 
 TraceInit ==
   /\ tid \in 1 .. Len(Traces)
@@ -71,14 +77,15 @@ RowOk(r) == LET key == T.keys[r]
                 g == IndexOf(dict, key)
             IN  IF KeyIsNull(key) \/ ksz[g] = 0
                 THEN \/ T.res[r] = EmptyVal          \* neutral ...
-                     \/ T.res[r] = Null \/ T.res[r] = NullRat   \* ... or null marker
+                     \/ T.res[r] = (IF T.op = "mean" THEN NullRat ELSE Null)   \* ... or null marker
                      \/ T.nonull = 1
                 ELSE DontCareG(g) \/ T.res[r] = GVal(g)
 
 (* sums under a based embedding are shipped as (hi, lo) limbs: hi = number of values summed *)
 HiOk == IF "reshi" \notin DOMAIN T THEN TRUE
         ELSE IF T.tf = 1
-        THEN \A r \in 1..N : KeyIsNull(T.keys[r]) \/ T.reshi[r] = part[IndexOf(dict, T.keys[r])].c
+        THEN \A r \in 1..N : IF KeyIsNull(T.keys[r]) THEN TRUE
+                              ELSE T.reshi[r] = part[IndexOf(dict, T.keys[r])].c
         ELSE \A j \in 1..Len(ExpListed) : T.reshi[j] = part[ExpListed[j]].c
 
 ResOk ==
